@@ -13,3 +13,6 @@ for id in "$@"; do
   (cd /verif && VERIF_REPO=$wt ./check $id 2>&1 | tail -4)
 done
 git -C /repo worktree remove --force $wt
+# regenerate lean/PyIpmi/Gen (and the evidence) from /repo again: a scratch-tree run rewrites Gen
+for id in "$@"; do (cd /verif && ./check $id >/dev/null 2>&1); done
+
